@@ -119,6 +119,7 @@ pub(crate) fn string(input: &[u8]) -> IResult<&[u8], Cow<'_, str>> {
     }
     let mut i = 1;
     let mut escapes = 0;
+    let mut closed = false;
     while i < input.len() {
         let c = input[i];
         match c {
@@ -129,6 +130,7 @@ pub(crate) fn string(input: &[u8]) -> IResult<&[u8], Cow<'_, str>> {
                 }
             }
             b'"' => {
+                closed = true;
                 break;
             }
             _ => {
@@ -136,7 +138,7 @@ pub(crate) fn string(input: &[u8]) -> IResult<&[u8], Cow<'_, str>> {
             }
         }
     }
-    if i > 1 {
+    if closed {
         if escapes == 0 {
             if let Ok(s) = std::str::from_utf8(&input[1..i]) {
                 return Ok((&input[i + 1..], Cow::Borrowed(s)));
